@@ -24,6 +24,8 @@ structure SideSt where
   required : List ((Nat × Int) × (Nat × Bool))
   /-- TimerBegin reports that may appear: one per UpdateTimer action (machine, instant) -/
   allowed : List (Nat × Int)
+  /-- diagnosis only: expiries of timers that were superseded or cancelled before they ended -/
+  stale : List (Nat × Int) := []
   deriving Repr, Inhabited
 
 structure MonSt where
@@ -40,10 +42,15 @@ def applyActs (t : Int) (sd : SideSt) : List TAction → SideSt
   | [] => sd
   | a :: r =>
     let sd := match a with
-      | .cancel m .internal | .cancel m .all => { sd with timers := sd.timers.set m none }
+      | .cancel m .internal | .cancel m .all =>
+        { sd with timers := sd.timers.set m none,
+                  stale := match sd.timers[m]?.join with | some old => (m, old) :: sd.stale | none => sd.stale }
       | .updateTimer dur replace m =>
         let (v, changed) := timerSpec (sd.timers[m]?.join) t (dur * 1000) replace
         { sd with timers := sd.timers.set m v,
+                  stale := match sd.timers[m]?.join with
+                    | some old => if changed && some old != v then (m, old) :: sd.stale else sd.stale
+                    | none => sd.stale,
                   allowed := (m, t) :: sd.allowed,
                   required := if changed then ((m, t), (dur, replace)) :: sd.required else sd.required }
       | _ => sd
@@ -66,22 +73,26 @@ def stepEv (st : MonSt) (x : EvActs) : Except String MonSt := do
   let t := e.time
   for cl in [true, false] do
     if let some ((m, t'), (dur, rp)) := overdueBegin (st.side cl) t then
-      throw s!"TimerBegin missing: UpdateTimer ({durClass dur} duration {dur}us replace={rp}) set the timer of {sideName cl} machine {m} at {t'} but no TimerBegin was reported before time moved to {t}"
+      throw s!"TimerBegin missing after an UpdateTimer with {durClass dur} duration set the timer of a {sideName cl} machine | machine {m} at {t'}, duration {dur}us replace={rp}, time moved to {t}"
     if let some (m, exp) := overdueTimer (st.side cl) t then
-      throw s!"TimerEnd missing: timer of {sideName cl} machine {m} expired at {exp} but time moved to {t}"
+      throw s!"TimerEnd missing: the timer of a {sideName cl} machine expired but time moved on | machine {m} expired at {exp}, time moved to {t}"
   let sd := st.side e.client
   let sd ← match e.event with
     | .timerBegin m =>
       if sd.allowed.contains (m, t) then
         pure { sd with allowed := sd.allowed.erase (m, t), required := dropReq (m, t) sd.required }
-      else throw s!"TimerBegin for {sideName e.client} machine {m} at {t} without an UpdateTimer action at that instant"
+      else throw s!"TimerBegin for a {sideName e.client} machine without an UpdateTimer action at that instant | machine {m} at {t}"
     | .timerEnd m =>
+      -- diagnosis: a superseded / cancelled timer of this machine expired exactly now: it had
+      -- already been turned into a queued TimerEnd when it was superseded
+      let tag := if sd.stale.contains (m, t) then "[S1-early-exec] " else ""
       match sd.timers[m]?.join with
       | some exp =>
         if exp == t then pure { sd with timers := sd.timers.set m none }
-        else throw s!"TimerEnd for {sideName e.client} machine {m} at {t} but the timer expires at {exp}"
-      | none => throw s!"TimerEnd for {sideName e.client} machine {m} at {t} but no timer is running (cancelled, superseded or already ended)"
+        else throw s!"{tag}TimerEnd for a {sideName e.client} machine at another time than its timer expires | machine {m} at {t}, expiry {exp}"
+      | none => throw s!"{tag}TimerEnd for a {sideName e.client} machine whose timer is not running | machine {m} at {t} (cancelled, superseded or already ended)"
     | _ => pure sd
+  let sd := { sd with stale := sd.stale.filter fun (_, exp) => exp ≥ t }
   pure (st.setSide e.client (applyActs t sd x.acts))
 
 def runMon (st : MonSt) : List EvActs → Option String
